@@ -702,7 +702,7 @@ impl Check for C07 {
     fn cases(&self, tier: Tier) -> u64 {
         match tier {
             Tier::Quick => 5000,
-            Tier::Thorough => 300_000,
+            Tier::Thorough => 120_000,
         }
     }
     fn run_case(&self, ctx: &mut CaseCtx) {
